@@ -391,6 +391,19 @@ func finishShape(sh *shape) {
 		}
 		for _, p := range a.Parts {
 			we(p, in)
+			// an annotated inner part of >= 2 symbols that ends in a symbol that can be empty and
+			// is not the whole rule: the place where reportRange has to trim under fixWhitespace
+			inner := p
+			if p.Kind == extsem.KOpt {
+				inner = p.Sub
+			}
+			if inner.Kind == extsem.KGroup && len(a.Parts) > 1 {
+				for _, ga := range inner.Alts {
+					if k := len(ga.Parts); k >= 2 && emptySym(ga.Parts[k-1]) && ga.Arrow != nil && ga.Arrow.Kind == extsem.NodeArrow {
+						feats["inner-part-ends-in-empty-symbol"] = true
+					}
+				}
+			}
 		}
 	}
 	for _, nt := range g.NTs {
@@ -401,6 +414,11 @@ func finishShape(sh *shape) {
 				for _, p := range a.Parts {
 					we(p, true)
 				}
+			}
+			if k := len(a.Parts); k >= 2 && emptySym(a.Parts[k-1]) && (in || (a.Arrow != nil && a.Arrow.Kind == extsem.NodeArrow)) {
+				// a reported rule that ends in a symbol that can be empty after other symbols:
+				// fixWhitespace changes the range of the rule itself
+				feats["fixWhitespace-matters:rule-level"] = true
 			}
 			wa(a, false)
 		}
